@@ -52,7 +52,7 @@ func sameOrigin(a, b *url.URL) bool {
 // SetAgeHeader sets the Age header in the response based on the Age value.
 // It assumes a non-nil Age pointer is provided.
 func SetAgeHeader(resp *http.Response, clock Clock, age *Age) {
-	adjusted := max(age.Value+clock.Since(age.Timestamp), 0)
+	adjusted := saturatingAdd(age.Value, max(clock.Since(age.Timestamp), 0))
 	resp.Header.Set("Age", strconv.Itoa(int(adjusted.Seconds())))
 }
 
